@@ -7,6 +7,7 @@ symbol names in the *caller's frame* - and then delegates to the shipped Python 
 """
 import ast
 import re
+import sys
 
 import hypothesis.strategies as st
 
@@ -20,7 +21,7 @@ from vf import shrink as shrinker
 ID = 'C03'
 LEVEL = 'exploration'
 TECHNIQUE = ('property-based testing with a run-time contract monitor installed in place of if_stmt/while_stmt/for_stmt/if_exp/and_/or_/not_: '
-             'caller-frame evaluation of symbol names vs get_state(), get/set laws with sentinels, callback arities, nouts bounds, '
+             'caller-frame evaluation of symbol names vs get_state(), get/set laws with sentinels, callback arities, nouts bounds, outputs-first via an outputs-only if_stmt + differential run, '
              'iterate_names and directive placement checked against the source of the generated program')
 RULE = ('programs from vf.progen (full statement set incl. composites o.x / d[k], nested defs, jumps) with set_loop_options directives '
         'placed as first body statement in ~35% of loops (unique integer values identify the loop). One evaluation = one dynamic '
@@ -30,15 +31,104 @@ ASSUMPTIONS = [
     'positions whose value is an Undefined placeholder for a composite (missing attribute/key) are exempt from the write laws: writing the placeholder back would materialise the attribute (calibration)',
     'while loops are identified by their unique counter name in the test callback, for loops by their unique target text',
     'programs never read possibly-unbound variables and exclude the F29 shape, so a state getter that raises is a violation, not an artefact of an unbound user variable',
-    'only invocations that execute are checked; outputs-first is decided by C02 (restoring state[nouts:])',
+    'only invocations that execute are checked',
+    'outputs first: after every if_stmt the monitor writes the entry value back into every position >= nouts (what operators.md allows an implementation to do) and the run is compared with the original (result, ordered log, post-state, exception type; C01 rules); states with an Undefined composite are left alone; timeouts are not judged here',
 ]
 LEVEL_TEXT = ('Every operator invocation that occurs while running the generated programs is validated against the documented contract; '
               'a violation is a concrete (program, input, invocation).')
 LEVEL_NOTE = 'Trusted: frame introspection (f_locals/f_globals evaluation of qualified names) and the monitor in vf/backends.py.'
 
-GEN = {'directives': 35, 'unbound_reads': False, 'excl': ('no_all_branch_rebind_in_nested_block', 'no_handler_only_binding', 'no_for_target_rebind', 'no_lambda_capture_across_rebind', 'no_impure_chain_middle',
-                                   )}
+class _SkipSentinels(Exception):
+  pass
+
+
+class OutputsOnlyMonitor(backends.Monitor):
+  """The contract monitor plus the executable form of "the output count is within bounds with outputs
+  first": after the shipped if_stmt has run, only the first `nouts` state entries keep the value the
+  branch gave them; every later (input-only) entry is written back to the value it had on entry - what
+  operators.md allows an implementation to do. The converted function must still behave like the
+  original (compared in run_case), so a variable that is observed after the conditional but sits at a
+  position >= nouts (or is missing from the state although a nested function reads it later) shows."""
+
+  def check_state(self, kind, frame, get_state, set_state, symbol_names):
+    # Calibration: when the base variable of a composite entry (m0 of m0[1]) is itself a state entry,
+    # "write sentinels, read them back" is not a law of the contract - the setter assigns position by
+    # position, so a sentinel written to the base breaks the element write. States a backend writes
+    # come from earlier reads and are consistent; the sentinel clause is skipped for this shape, every
+    # other clause (lengths, caller-frame identity, idempotent reads, write-back of what was read) runs.
+    names = [n for n in symbol_names if isinstance(n, str)] if isinstance(symbol_names, tuple) else []
+    simple = set(n for n in names if re.match(r'^[A-Za-z_][A-Za-z0-9_]*$', n))
+    clash = False
+    for n in names:
+      if n not in simple:
+        try:
+          roots = set(x.id for x in ast.walk(ast.parse(n, mode='eval')) if isinstance(x, ast.Name))
+        except SyntaxError:
+          roots = set()
+        if roots & simple:
+          clash = True
+    if not clash:
+      return backends.Monitor.check_state(self, kind, frame, get_state, set_state, symbol_names)
+    self.stats['sentinel_law_skipped_composite_base_in_state'] = self.stats.get('sentinel_law_skipped_composite_base_in_state', 0) + 1
+    self.arity(kind, 'set_state', set_state, 1)
+
+    def guarded(vals):
+      if any(isinstance(v, backends._Sentinel) for v in vals):
+        raise _SkipSentinels()
+      return set_state(vals)
+
+    try:
+      backends.Monitor.check_state(self, kind, frame, get_state, guarded, symbol_names)
+    except _SkipSentinels:
+      pass
+
+  def if_stmt(self, cond, body, orelse, get_state, set_state, symbol_names, nouts):
+    nviol = len(self.violations)
+    f = sys._getframe(1)
+    self.arity('if', 'body', body, 0)
+    self.arity('if', 'orelse', orelse, 0)
+    self.check_state('if', f, get_state, set_state, symbol_names)
+    ok_nouts = isinstance(nouts, int) and not isinstance(nouts, bool) and 0 <= nouts <= len(symbol_names)
+    if not ok_nouts:
+      self.bad('if:nouts-out-of-bounds', {'nouts': repr(nouts), 'n': len(symbol_names)})
+    init = None
+    if ok_nouts and len(self.violations) == nviol and nouts < len(symbol_names):
+      try:
+        init = get_state()
+      except Exception:  # noqa (reported by check_state)
+        init = None
+    r = self.cf._py_if_stmt(cond, body, orelse)
+    if init is not None:
+      final = get_state()
+      if len(final) == len(init):
+        new = list(final)
+        nrest = 0
+        for i in range(nouts, len(init)):
+          if symbol_names[i] in self.declared_names:
+            # suspected defect FC03-D (reported, not in known_findings.json): a name the function declares
+            # global / nonlocal that is read and written in a branch and not read afterwards is classified
+            # input-only although the write is observable outside; such positions are left alone
+            # (exclusion flag no_restore_of_declared_names, counted)
+            self.stats['excluded:no_restore_of_declared_names'] = self.stats.get('excluded:no_restore_of_declared_names', 0) + 1
+            continue
+          new[i] = init[i]
+          nrest += 1
+        composite = [not re.match(r'^[A-Za-z_][A-Za-z0-9_]*$', n) for n in symbol_names]
+        if any(composite[i] and backends._is_undef(v) for i, v in enumerate(new)):
+          # writing the placeholder of a missing attribute / key back would materialise it (same
+          # calibration as the write laws of the base monitor)
+          self.stats['restore_skipped_undefined_composite'] = self.stats.get('restore_skipped_undefined_composite', 0) + 1
+        elif nrest:
+          self.stats['input_only_entries_restored'] = self.stats.get('input_only_entries_restored', 0) + nrest
+          set_state(tuple(new))
+    return r
+
+
+GEN = {'directives': 35, 'unbound_reads': False, 'excl': ('no_all_branch_rebind_in_nested_block', 'no_handler_only_binding', 'no_for_target_rebind', 'no_lambda_capture_across_rebind', 'no_impure_chain_middle')}   # FC03d (flag no_restore_of_declared_names) is repaired in /repo: declared names are checked again
 _KEEP = []
+NEW_CLASSES = ('escape', 'call_through:', 'shape:', 'rebind_in:', 'nested_global_decl', 'subscript_target',
+               'kwpartial', 'module_kwpartial', 'optional_fn', 'local_container', 'call_of_enclosing_local_fn', 'local_fn_redefined',
+               'store_after_def')
 
 
 def budget(tier):
@@ -71,6 +161,14 @@ def expectations(src):
   return exp
 
 
+def declared_names(src):
+  out = set()
+  for n in ast.walk(ast.parse(src)):
+    if isinstance(n, (ast.Global, ast.Nonlocal)):
+      out.update(n.names)
+  return out
+
+
 def run_case(case):
   fails = []
   info = {'runs': 0, 'stats': {}}
@@ -81,7 +179,8 @@ def run_case(case):
     info['generator_slip'] = repr(e)
     return fails, info
   _KEEP.append(mod)
-  mon = backends.Monitor(expectations(src))
+  mon = OutputsOnlyMonitor(expectations(src))
+  mon.declared_names = declared_names(src) if 'no_restore_of_declared_names' in GEN['excl'] else set()
   config = case.get('config') or {'entry': 'to_graph', 'recursive': True, 'features': []}
   with harness.swapped_ag(**mon.overrides()):
     for inp in case['inputs']:
@@ -97,9 +196,17 @@ def run_case(case):
       except Exception as e:
         fails.append(('convert:' + harness.exc_bucket(e), {'exc': repr(e)[:400]}))
         break
-      diffobs.observe(conv, inp, mod, cells, 10.0)
+      c = diffobs.observe(conv, inp, mod, cells, 10.0)
       info['runs'] += 1
       if mon.violations:
+        break
+      # outputs first / complete state, made observable by the outputs-only if_stmt above
+      r = diffobs.compare(o, c) if c['outcome'][0] != 'timeout' else None   # no wall-clock verdicts here (C01 owns non-termination)
+      if r is not None:
+        b, d = r
+        d = dict(d) if isinstance(d, dict) else {'detail': d}
+        d['input'] = inp
+        fails.append(('contract:outputs-only-if_stmt-changes-behaviour:' + b, d))
         break
   seen = set()
   for clause, detail in mon.violations:
@@ -128,7 +235,11 @@ def shard(ctx, acc):
     fails, info = run_case(case)
     s = info['stats']
     nt = bool(s.get('state_entries>=2') or s.get('composite_entry') or s.get('directive_seen'))
-    cls = ['has:' + k for k in prog['meta'] if k in ('loop_directive', 'composite_write', 'nested_def', 'for_unpack', 'nested_loop')]
+    cls = ['has:' + k for k in prog['meta'] if k in ('loop_directive', 'composite_write', 'nested_def', 'for_unpack', 'nested_loop')
+           or k.startswith(NEW_CLASSES)]
+    for k in ('input_only_entries_restored', 'restore_skipped_undefined_composite', 'sentinel_law_skipped_composite_base_in_state', 'excluded:no_restore_of_declared_names'):
+      if s.get(k):
+        cls.append(k if k.startswith('excluded:') else 'run_with:' + k)
     cls += [k for k in prog['meta'] if k.startswith('excluded:')]
     for k in ('state_entries>=2', 'composite_entry', 'directive_seen', 'write_laws_skipped_undefined_composite'):
       if s.get(k):
